@@ -22,6 +22,7 @@ import copy
 import difflib
 import glob
 import hashlib
+import random
 import re
 import shutil
 import time
@@ -65,6 +66,8 @@ class F:
 
     def enc(self, with_tag):
         s = "%s:%s:%d:%s" % (hx(self.path), hx(self.content), self.mtime, "~" if self.overlay is None else hx(self.overlay))
+        if getattr(self, "link", False) and not with_tag:
+            s += ":L"        # harness only (symlink_tie): `path` is a symbolic link, content and mtime are its target's
         if with_tag:
             s += ":%s:%s" % (("~", "0") if self.tag is None else (hx(self.tag[0]), "1" if self.tag[1] else "0"))
         return s
@@ -637,6 +640,88 @@ def metadata_tie(ctx, harness, modeld, quick):
                     "how": "harness/c13 line protocol: `meta <need_rt> <need_pyinit> <link args, hex list> <archive bytes, hex>`; VerifMetaRoundTrip in the "
                            "overlay runs the real saveToCache, then the real tryLoadFromCache on a fresh package record with the same fingerprint"})
     return mreq, broken
+
+
+# ------------------------------------------------------------------------------------------ in-process tie: symbolic links
+def symlink_tie(ctx, harness, hello, quick):
+    """Source trees in which a listed file (Go file, alt file, .c/.s side file, extra file) is a SYMBOLIC LINK (shared files linked
+    into several package directories, Bazel/Nix style trees, generated-code farms).  The Go toolchain compiles - and its build cache
+    hashes - what the link points to; so does llgo's compiler.  SPEC, judged on the real collectFingerprint alone and relative to
+    the same tree's behaviour on regular files: if an edit of a file's content changes a package fingerprint when the file is a
+    regular file, the same edit of the link's TARGET (the link itself - text, size, own mtime - untouched) must change it too.
+    Otherwise the archive compiled from the old target is served for the new one."""
+    rng = random.Random("c13-symlink-%s" % ctx.seed)          # private stream: the other generators keep their sequences
+    n = 150 if quick else 1500
+    cases, lines = [], []
+    for c in range(n):
+        g, pkgs = gen_base(rng, hello)
+        cands = [("extra", None, f) for f in g["extrafiles"]]
+        for p in pkgs:
+            cands += [("gofiles", p, f) for f in selected(g, p["gofiles"])]
+            cands += [("altfiles", p, f) for f in (p["altfiles"] or [])]
+            cands += [("otherfiles", p, f) for f in p["otherfiles"]]
+        if not cands:
+            continue
+        kind, p, f = rng.choice(cands)
+        f.overlay = None                                        # an overlay entry replaces the disk file: nothing to follow
+        edit = rng.choice(["samesize", "samesize", "size", "size+mtime", "samesize+mtime"])
+        old = f.content
+        if edit.startswith("samesize") and old:
+            i = rng.randrange(len(old))
+            new = old[:i] + bytes([old[i] ^ 1]) + old[i + 1:]
+        else:
+            new = old + rng.choice([b"1", b"\n", b"ab"])
+        dmt = 1_000_000_000 if edit.endswith("+mtime") else 0
+        four = []
+        for link in (False, True):
+            for content, mt in ((old, f.mtime), (new, f.mtime + dmt)):
+                f.link, f.content, saved = link, content, f.mtime
+                f.mtime = mt
+                four.append("key " + enc_prog(g, pkgs, False))
+                f.mtime = saved
+        f.link, f.content = False, old
+        cases.append({"kind": kind, "file": f.path, "package": p["id"] if p else "(crosscompile extra file)", "edit": edit,
+                      "old_content": old.decode("latin-1"), "new_content": new.decode("latin-1"), "ids": [q["id"] for q in pkgs]})
+        lines += four
+    out, rc, err = run_lines([harness], lines)
+    stats = {"cases": len(cases), "regular_separates": 0, "link_separates": 0, "by_kind": {}}
+    broken = []
+    if len(out) != len(lines):
+        broken.append("symlink tie: harness answered %d of %d requests: %s" % (len(out), len(lines), err[-500:]))
+        return stats, broken
+    for c, case in enumerate(cases):
+        ra, rb, la, lb = (parse_key_answer(o) for o in out[4 * c:4 * c + 4])
+        if ra is None or rb is None:
+            continue
+        if la is None or lb is None:
+            broken.append("symlink tie: collectFingerprint fails on a tree with a symbolic link (%s %s): %s" % (case["kind"], case["file"], out[4 * c + 2][:300]))
+            continue
+        st = stats["by_kind"].setdefault(case["kind"], {"n": 0, "regular_separates": 0, "link_separates": 0})
+        st["n"] += 1
+        for x in range(len(ra)):
+            reg_diff = ra[x][1] != rb[x][1]
+            lnk_diff = la[x][1] != lb[x][1]
+            stats["regular_separates"] += reg_diff
+            stats["link_separates"] += lnk_diff
+            st["regular_separates"] += reg_diff
+            st["link_separates"] += lnk_diff
+            if reg_diff and not lnk_diff:
+                pid = bytes.fromhex(ra[x][0]).decode()
+                ctx.report("cache:symlinked-source-target-edit:" + case["kind"],
+                           "the fingerprint of package %s does not change when the target of the symbolic link %s (%s of %s) is edited (%s: %r -> %r), "
+                           "although the same edit of the same file as a regular file changes it: the build cache serves the archive compiled from the old "
+                           "target" % (pid, case["file"], case["kind"], case["package"], case["edit"], case["old_content"], case["new_content"]),
+                           {"case": case, "package_with_unchanged_fingerprint": pid,
+                            "requests": {"regular_before": lines[4 * c], "regular_after": lines[4 * c + 1], "link_before": lines[4 * c + 2],
+                                         "link_after": lines[4 * c + 3]},
+                            "fingerprints": {"regular_before": ra[x][1], "regular_after": rb[x][1], "link_before": la[x][1], "link_after": lb[x][1]},
+                            "manifest_link_before": la[x][3][:3000], "manifest_link_after": lb[x][3][:3000],
+                            "how": "harness/c13 line protocol `key G=... P=...`; a file with the fifth field `L` is created as a relative symbolic link "
+                                   "<path> -> _lnk/<path> (own mtime fixed), content and mtime are given to the target; the real collectFingerprint runs "
+                                   "on the package records (VerifCollect).  End to end: a non-main package with `limits.go -> ../shared/limits.go`, "
+                                   "llgo build, edit shared/limits.go, llgo build: CACHE HIT, the program prints the old constant"})
+                break
+    return stats, broken
 
 
 # ------------------------------------------------------------------------------------------ e2e modules and histories (tie B-E)
@@ -1376,6 +1461,16 @@ def run(ctx, args):
     if finer:
         ctx.log("note: the real fingerprint separates %d input pairs that the model's key identifies (kinds %s): the code's key became finer than the "
                 "model; theorems proved for the coarser key still apply, the model should be updated" % (len(finer), sorted(set(c[0] for c in finer))))
+
+    # ---- tie B-O (2b): listed files that are symbolic links - an edit of the link's target must reach the fingerprint whenever the
+    # same edit of a regular file does (judged on the real code alone; the model's file is what stat reports, i.e. the target)
+    lstats, lbroken = symlink_tie(ctx, harness, hello, quick)
+    broken += lbroken
+    cstats["symlink_tie"] = lstats
+    ctx.log("symlinked sources: %d cases (%s); the edit changes some fingerprint %d times as a regular file, %d times through the link"
+            % (lstats["cases"], {k: v["n"] for k, v in lstats["by_kind"].items()}, lstats["regular_separates"], lstats["link_separates"]))
+    if lstats["cases"] and not lstats["regular_separates"]:
+        broken.append("symlink tie is vacuous: no edit changed a fingerprint")
 
     # ---- tie B-E: histories
     build_llgo(ctx)
